@@ -163,10 +163,18 @@ Inductive op :=
       (* meshops.FilterFloatK / RemoveNullFaces3D: needs attribute name (and a topology of req);
          RemovedUnreferencedVertices(m.SetIndices(the kept indices, appended one by one)) *)
 | OCrop (i : nat) (name : N) (keep : list nat)                   (* meshops.CropFloat3Attribute: the vertices kept, NewPointCloud *)
-| OMulti (i : nat) (name : option N) (req : list topology) (parts : list (list cell * option Z)).
+| OMulti (i : nat) (name : option N) (req : list topology) (parts : list (list cell * option Z))
       (* meshops.SliceByPlaneWithAttribute (two parts, materials shared) and SplitOnUniqueMaterials (one part per
          material, own material entry): attribute data copied once (readAllFloatNData), per part an index list
          appended three at a time, then RemovedUnreferencedVertices *)
+| OBuild (t : topology) (ix : list cell) (ms : list cell) (c1 c2 c3 c4 : list (N * list cell))
+      (* a mesh assembled from data the caller (or a generator function) made for it: modeling.NewPointCloud /
+         NewLineStripMesh (caller's maps of caller's slices; empty arrays dropped, identity indices), the primitives
+         (Quad, Circle, Cone, Cylinder, UVSphere, Hemisphere, Cube.UnweldedQuads), extrude.*, triangulation.*: every
+         array of the result is new *)
+| OShareMats (i j : nat).
+      (* pool[i].SetMaterials(pool[j].Materials()): Materials() hands out the mesh's own slice, so the result shares
+         j's material array (spare capacity included) *)
 
 (* a mesh value as Go holds it: slices by value, maps by reference *)
 Record gmesh := mkG { g_topo : topology; g_idx : slice; g_mats : slice; g_v1 : nat; g_v2 : nat; g_v3 : nat; g_v4 : nat }.
@@ -197,17 +205,19 @@ Definition kind_eqb (a b : kind) : bool :=
 Definition map_plan (o : op) (k : kind) : mapsrc :=
   match o with
   | OSetAttr k' _ _ _ _ | OCopyAttr k' _ _ _ | OMap k' _ _ _ _ _ _ | OSetData k' _ _ => if kind_eqb k k' then MFresh else MShare
-  | OSetIndices _ _ _ | OSetMaterial _ _ | OSetMaterials _ _ _ | OToPoints _ | OFlip _ | OIdent _ | OExport _ _ => MShare
+  | OSetIndices _ _ _ | OSetMaterial _ _ | OSetMaterials _ _ _ | OToPoints _ | OFlip _ | OIdent _ | OExport _ _
+  | OShareMats _ _ => MShare
   | OClearAttrs _ => MNil
   | _ => MFresh
   end.
 (* the receiver *)
 Definition operand (o : op) : nat :=
   match o with
-  | ONew _ _ _ | OEmpty _ | OCube _ _ _ _ => 0
+  | ONew _ _ _ | OEmpty _ | OCube _ _ _ _ | OBuild _ _ _ _ _ _ _ => 0
   | OAppend i _ | OSetAttr _ i _ _ _ | OCopyAttr _ i _ _ | OSetIndices i _ _ | OSetMaterial i _ | OSetMaterials i _ _
   | OClearAttrs i | OMap _ i _ _ _ _ _ | OToPoints i | OFlip i | OUnweld i | ORemoveUnref i | OWeld i _ _ _
-  | ORepeat i _ _ | OExport _ i | OSetData _ i _ | OIdent i | OFilter _ i _ _ _ | OCrop i _ _ | OMulti i _ _ _ => i
+  | ORepeat i _ _ | OExport _ i | OSetData _ i _ | OIdent i | OFilter _ i _ _ _ | OCrop i _ _ | OMulti i _ _ _
+  | OShareMats i _ => i
   end.
 
 Definition place (mh : mheap) (pl : mapsrc) (shared : nat) (a : amap) : mheap * nat :=
@@ -588,6 +598,19 @@ Definition exec (fixed : bool) (h : heap) (p : list mesh) (o : op) : result :=
               end
           else RErr Declared
       | None => RErr Declared
+      end
+  | OBuild t ix ms c1 c2 c3 c4 =>
+      let (h1, s) := new_slice h ix 0 in
+      let (h2, sm) := new_slice h1 ms 0 in
+      let (h3, a4) := alloc_map h2 c4 in
+      let (h4, a3) := alloc_map h3 c3 in
+      let (h5, a2) := alloc_map h4 c2 in
+      let (h6, a1) := alloc_map h5 c1 in
+      RNew h6 (mkMesh t s sm a1 a2 a3 a4)
+  | OShareMats i j =>
+      match get i, get j with
+      | Some m, Some src => RNew h (with_mats m (mats src))
+      | _, _ => RErr Declared
       end
   end.
 
